@@ -25,6 +25,37 @@ Fixpoint pairs_of (l : list (list N)) : list (list N * list N) :=
   end.
 Definition ly (s : string) : list (list N * list N) := pairs_of (hb s).
 
+(** Long keys.  A case whose keys share a long common stem gives the stem once, run-length
+    encoded ([rl [(97, 150); (255, 2)]] = 150 times "a", then ff ff), and writes every byte
+    string with three markers next to the hex digits: [S] = the stem, [T] = the stem without its
+    last byte (so the stem's successor is "T" + one byte), [U] = the stem without its last two
+    bytes.  The case term is
+    [(let s := rl [...] in CList true [lys s "S01,31S01,"] (h1s s "S,") ...)].  Only the text of
+    the case files gets shorter: the expanded byte strings are ordinary [bytes], and [CSelf]
+    cases compare the expansion with the same byte strings written in plain hex. *)
+Definition rl (runs : list (N * N)) : list N :=
+  flat_map (fun r => repeat (fst r) (N.to_nat (snd r))) runs.
+
+(** [rs] / [rt] / [ru]: the stem / the stem without its last byte / last two bytes, reversed *)
+Fixpoint hbs_go (rs rt ru : list N) (s : string) (cur : list N) (acc : list (list N)) : list (list N) :=
+  match s with
+  | EmptyString => rev acc
+  | String a tl =>
+      if Ascii.eqb a ","%char then hbs_go rs rt ru tl [] (rev cur :: acc)
+      else if Ascii.eqb a "S"%char then hbs_go rs rt ru tl (rs ++ cur) acc
+      else if Ascii.eqb a "T"%char then hbs_go rs rt ru tl (rt ++ cur) acc
+      else if Ascii.eqb a "U"%char then hbs_go rs rt ru tl (ru ++ cur) acc
+      else match tl with
+           | String b tl' => hbs_go rs rt ru tl' ((16 * hexval a + hexval b)%N :: cur) acc
+           | EmptyString => rev acc
+           end
+  end.
+Definition hbs (stem : list N) (s : string) : list (list N) :=
+  hbs_go (rev stem) (rev (removelast stem)) (rev (removelast (removelast stem))) s [] [].
+Definition lys (stem : list N) (s : string) : list (list N * list N) := pairs_of (hbs stem s).
+(** one byte string: [h1s stem "S6162,"] *)
+Definition h1s (stem : list N) (s : string) : list N := hd [] (hbs stem s).
+
 (** [merged = false]: ListHelper directly on one GoMemDB / GoLevelDB ([layers] has one element);
     [merged = true]: ListHelper on NewMergedIteratorDB(layers). *)
 Inductive case :=
@@ -33,10 +64,12 @@ Inductive case :=
 | CCount (merged : bool) (layers : list store) (prefix : bytes) (impl : Z)
     (* ListHelper.PrefixCount(prefix) *)
 | CPages (merged : bool) (layers : list store) (prefix : bytes) (n d : Z)
-         (impl : option (list (list bytes))).
+         (impl : option (list (list bytes)))
     (* a client paging with page size n: key = "" first, then the key of the last entry
-       of the previous page, until an empty page; None = still not finished after
-       [fuel_of layers] requests *)
+       of the previous page, until an empty page; None = "did not terminate": still not
+       finished after [fuel_of layers] requests (the harness stops asking then) *)
+| CSelf (expanded plain : list bytes).
+    (* self-check of the long-key literals: the stem notation and plain hex give the same bytes *)
 
 Definition lb_eqb := list_eqb bytes_eqb.
 Definition pages_eqb := list_eqb lb_eqb.
@@ -103,4 +136,6 @@ Definition check_case (c : case) : verdict :=
                     then 2%N else 0%N
                 end in
       (m, s, kf)
+  | CSelf expanded plain =>
+      let ok := lb_eqb expanded plain in (ok, ok, 0%N)
   end.
